@@ -127,10 +127,11 @@ ACTORS = {
     "doc0[k]=new": (a_doc_set(SP0, "k", {"v": list(range(40)), "t": "new"}), [SP0], (0, "k", {"v": list(range(40)), "t": "new"})),
     "doc1[m]=1": (a_doc_set(SP1, "m", 1), [SP1], (1, "m", 1)),
     "read doc0": (a_doc_read(SP0), [], None),
+    "read doc1": (a_doc_read(SP1), [], None),          # job 1 exists without a document file: a first read must not race with another process's write
     "len(project)": (a_len, [], None),
 }
-P_SCRIPTS = ["Project()", "init(sp0)", "init(sp2)", "doc0[k]=new"]
-Q_SCRIPTS = ["Project()", "init(sp0)", "init(sp1)", "doc1[m]=1", "read doc0", "len(project)"]
+P_SCRIPTS = ["Project()", "init(sp0)", "init(sp2)", "doc0[k]=new", "read doc1"]
+Q_SCRIPTS = ["Project()", "init(sp0)", "init(sp1)", "doc1[m]=1", "read doc0", "read doc1", "len(project)"]
 STARTS = ["empty", "populated"]
 
 
@@ -224,7 +225,10 @@ def schedule(start, pname, qname, k):
             return f"{where}: P failed after being resumed: {pres.get('err', '')[-400:]}", True
         # Q's observations are complete values
         qo = qres["obs"]
-        if qo[0] == "doc-read":
+        if qo[0] == "doc-read" and qname == "read doc1":
+            if qo[1] != {}:
+                return f"{where}: Q read {str(qo[1])[:100]} from a job without a document", True
+        elif qo[0] == "doc-read":
             old = {"k": "old", "keep": [1, 2]}
             new = dict(old, k={"v": list(range(40)), "t": "new"}) if pname == "doc0[k]=new" else old
             if qo[1] not in (old, new):
@@ -291,8 +295,8 @@ def run(tier="quick", seed=0):
             if bad:
                 failures.append({"key": f"schedule:{s}:{p}:{q}:{k}", "description": bad,
                                  "script": script_header() + f"sys.path.insert(0, '/verif')\nfrom pybound.c12 import schedule\nbad, reached = schedule({s!r}, {p!r}, {q!r}, {k})\nassert not bad, bad\n"})
-    return {"scope": "two processes, one preemption: P in {Project(), init(sp0), init(sp2), doc0[k]=new} is suspended right before its k-th file-system step (mkdir, open-for-writing, "
-                     "each write, close, replace/rename, remove; k = 1.. until P finishes first), Q in {Project(), init(sp0), init(sp1), doc1[m]=1, read doc0, len(project)} runs to completion, "
+    return {"scope": "two processes, one preemption: P in {Project(), init(sp0), init(sp2), doc0[k]=new, read doc1} is suspended right before its k-th file-system step (mkdir, open-for-writing, "
+                     "each write, close, replace/rename, remove; k = 1.. until P finishes first), Q in {Project(), init(sp0), init(sp1), doc1[m]=1, read doc0, read doc1, len(project)} runs to completion, "
                      "P resumes; from an empty project (no workspace directory yet) and from a populated one",
             "evaluations": evals, "distinct_nontrivial": len(distinct), "rule": "a case is one schedule (start, P script, Q script, k) in which P reached step k; distinct by that tuple",
             "samples": samples, "failures": failures}
